@@ -217,11 +217,7 @@ impl HavokObjectType {
     }
 
     pub fn member_count(&self) -> usize {
-        (if let Some(x) = &self.parent {
-            x.members.len()
-        } else {
-            0
-        }) + self.members.len()
+        self.members().len()
     }
 }
 
